@@ -91,8 +91,14 @@ func main() {
 				status = "CACHE-LOST-OUTCOME"
 			}
 		}
-		if status != "ok" {
+		// MODEL-HAS-EXTRA is a note, not an error: the real side is a free-running sample (which outcomes it
+		// shows depends on the machine and its load), so an outcome it did not show is no evidence against the
+		// model; the error that matters is an outcome of the real runtime that the model cannot produce.
+		if status != "ok" && status != "MODEL-HAS-EXTRA" {
 			bad++
+		}
+		if status == "MODEL-HAS-EXTRA" {
+			status = "ok(real-sample-narrower)"
 		}
 		fmt.Printf("%-40s %-18s model=%v real=%v (execs %d, hb-states %d)\n", p.Name, status, keys(outcomes), keys(real), st.Execs, st.States)
 	}
